@@ -19,6 +19,10 @@ STD = "similarity::StandardCombiner"
 
 def run(ck, prog, ctx):
     ck.rule("DOM", "who-may-call + must-pass-through: call site dominated by the non-empty edge (DESIGN 3.6)")
+    # no truncating adaptor (skip / take / step_by ..) in the iterator pipelines of these functions: every element takes part
+    from engines import check_complete_iteration as _cci_all
+    _cci_all(ck, "ROLE", prog, [b_ for b_ in sorted(prog.production(), key=lambda z: z.id) if re.search(r"^src/similarity\.rs$", b_.file or "")  # (matrix.rs walks a column with step_by by design: its iterators have rules of their own) and b_.kind in ("Fn", "AssocFn") and not b_.test
+                               and any(t_.callee.trait == "std::iter::Iterator" for fb_ in prog.family(b_) for _, t_ in fb_.calls())], "the rows / columns / scores it iterates")
     ck.rule("ROLE", "role provenance at contract sites (DESIGN 3.4)")
     ck.rule("SELECT", "direction of a reduction (DESIGN 3.10)")
     ck.rule("DISPATCH", "enum arms not cross-wired (DESIGN 3.11)")
